@@ -74,14 +74,13 @@ def main(argv=None):
     with common.Work(pid) as wd:
         built, blog = common.ensure_built()
         forb = common.scan_forbidden()
-        if built:
-            prop = common.compile_property(pid, wd)
-        else:
-            prop = dict(ok=False, theorems=[], printed=[], assumptions={}, closed=False, log=blog, cmd='make', wall_s=0)
-        proof_ok = bool(built and prop['ok'] and prop['closed'] and not forb)
+        # a failing build (make -k) only matters to this property if its own file no longer compiles
+        prop = common.compile_property(pid, wd)
+        proof_ok = bool(prop['ok'] and prop['closed'] and not forb)
         proof_problem = None
-        if not built:
-            proof_problem = 'the Coq development no longer builds against the constants read from /repo: ' + blog[-1500:]
+        if not prop['ok'] and not built:
+            proof_problem = ('the Coq development no longer builds against the constants read from /repo: '
+                             + blog[-1500:] + ' / ' + prop['log'][-800:])
         elif forb:
             proof_problem = 'forbidden declarations in the development: ' + '; '.join(forb[:5])
         elif not prop['ok']:
